@@ -260,6 +260,8 @@ def run_case(case, reports=False, keep_objects=False):
             if o == "pending":
                 # both public "not implemented yet" exceptions mean pending
                 raise (StepNotImplementedError, PendingStepError)[(sid + pos) % 2]("P%d_%d" % (sid, pos))
+            if o == "abort":
+                ctx.abort(reason="step asks to abort the run")      # public API: the run is aborted, the step itself passes
             if o == "kbd":
                 raise KeyboardInterrupt()
             if o == "skip":
